@@ -106,6 +106,10 @@ type streamDebugger struct {
 	popDLen, popALen int
 	popDTop, popATop []byte
 	popChecks        int
+	// operation counter of the snapshots over one instruction
+	opsBefore, opsKeys int
+	opsJudge           bool
+	opsChecks          int
 }
 
 func (d *streamDebugger) ev(kind byte, s *interpreter.State, data []byte) {
@@ -120,7 +124,34 @@ func (d *streamDebugger) ev(kind byte, s *interpreter.State, data []byte) {
 		if s.ScriptIdx < len(s.Scripts) && s.OpcodeIdx < len(s.Scripts[s.ScriptIdx]) {
 			d.opVal = int(s.Scripts[s.ScriptIdx][s.OpcodeIdx].Value())
 		}
+	case evBeforeStep:
+		// NumOps over an instruction outside any conditional: +1 for every opcode above OP_16,
+		// plus the number of public keys for an executed OP_CHECKMULTISIG(VERIFY) - in both eras
+		d.opsBefore, d.opsJudge, d.opsKeys = s.NumOps, len(s.CondStack) == 0, -1
+		if n := len(s.DataStack); n > 0 {
+			switch top := s.DataStack[n-1]; {
+			case len(top) == 0:
+				d.opsKeys = 0
+			case len(top) == 1 && top[0] <= 20:
+				d.opsKeys = int(top[0])
+			}
+		}
 	case evAfterStep:
+		if d.opVal >= 0 && d.opsJudge && s.ScriptIdx == d.opScript && !s.IsFinished {
+			want := 0
+			if d.opVal > 0x60 {
+				want = 1
+			}
+			if d.opVal == 0xae || d.opVal == 0xaf {
+				want += d.opsKeys
+			}
+			if (d.opVal != 0xae && d.opVal != 0xaf) || d.opsKeys >= 0 {
+				d.opsChecks++
+				if got := s.NumOps - d.opsBefore; d.incons == "" && got != want {
+					d.incons = fmt.Sprintf("callback %d (AfterStep): NumOps went from %d to %d over the instruction 0x%02x (expected +%d)", len(d.events)-1, d.opsBefore, s.NumOps, d.opVal, want)
+				}
+			}
+		}
 		// the code-separator position a snapshot reports only moves when an
 		// OP_CODESEPARATOR was the instruction, and then to that instruction
 		if d.opVal >= 0 && s.ScriptIdx == d.opScript && !s.IsFinished {
@@ -583,6 +614,31 @@ func init() {
 			if c.Case(uint64(i)) {
 				judge(c, &progInput{Unlock: v.Unlock, Lock: v.Lock, Flags: libFlagsOfVector(v.Flags), Src: "vector",
 					Ctx: progCtx{HasTx: true, Version: 1, Sequence: 0xffffffff, Sats: v.Amount}})
+			}
+		}
+		c.Phase("multisig-steps") // OP_CHECKMULTISIG(VERIFY) over n keys followed by further instructions: the snapshots of its step (operation counter included) in both eras
+		{
+			n := uint64(0)
+			for nk := 0; nk <= 20; nk++ {
+				for _, fl := range []uint32{0, uint32(scriptflag.UTXOAfterGenesis), uint32(scriptflag.UTXOAfterGenesis | scriptflag.EnableSighashForkID), uint32(scriptflag.VerifyNullFail)} {
+					for _, verify := range []bool{false, true} {
+						n++
+						if !c.Case(n) {
+							continue
+						}
+						lock := []byte{0x00} // number of signatures: none are required
+						for k := 0; k < nk; k++ {
+							lock = append(lock, gen.Push(append([]byte{0x02}, bytesOf(byte(0x10+k), 32)...))...)
+						}
+						lock = append(lock, gen.PushNum(int64(nk))...)
+						if verify {
+							lock = append(lock, 0xaf, 0x61, 0x51, 0x61)
+						} else {
+							lock = append(lock, 0xae, 0x61, 0x61)
+						}
+						judge(c, &progInput{Unlock: []byte{0x00}, Lock: lock, Flags: fl, Src: "multisig-steps", Ctx: progCtx{HasTx: true, Version: 1, Sequence: 0xffffffff, Sats: 5}})
+					}
+				}
 			}
 		}
 		c.Phase("catalog")
